@@ -431,6 +431,7 @@ class C12(core.Check):
         nontrivial = False
         kinds_on_reused = {}
         dict_memo = {}
+        handed_out = []  # (op index, raw result object, its frozen form when it was returned)
 
         def get_parser(e, c):
             if not reuse["parser"]:
@@ -534,6 +535,8 @@ class C12(core.Check):
             if faulted:
                 bump("faulted_calls")
                 continue  # the faulted call itself may raise or return anything
+            if got[0] == "ok" and isinstance(got[2], (list, dict)):
+                handed_out.append((idx, name, got[2], got[1]))
             if [got[0], got[1]] != exp:
                 after_fault = bool(fs.fired_faults)
                 violation = self.viol(
@@ -541,6 +544,13 @@ class C12(core.Check):
                     {"op": op, "index": idx, "reused": _short(got[1]), "fresh": _short(exp[1]),
                      "faults_fired": fs.fired_faults}, world=world, op=name)
                 break
+        if not violation:
+            # a result belongs to the caller: later calls on the same worker must not change it
+            for idx0, name0, raw0, frozen0 in handed_out:
+                if core.freeze(raw0) != frozen0:
+                    violation = self.viol("earlier_result_changed_by_later_call", name0,
+                                          {"index": idx0, "then": _short(frozen0), "now": _short(core.freeze(raw0))}, world=world, op=name0)
+                    break
         if any(len(v) >= 2 for v in kinds_on_reused.values()):
             nontrivial = True
         cover = [f"{wk}<-{p}" for wk, ps in pred.items() for p in ps]
